@@ -1,7 +1,7 @@
 (** Executable model of the MAIN LOOP of the bit-mask BFS engine (cayleypy/algo/bfs_bitmask.py):
     VertexChunk (black / last_layer / gray bit sets, flush_gray_to_black, materialisation of the
     last layer, paint_gray) and the driver CayleyGraphChunkedBfs (chunk list keyed by suffix,
-    paint_gray with its grouping by chunk and the IndexError of that grouping, bfs with the depth
+    paint_gray with its grouping by chunk, bfs with the depth
     limit and both stopping rules).  The rank/unrank layer itself is Bitmask.v; here it is
     re-implemented on binary numbers through two lookup tables exactly like PREFIX_MAP_1 /
     PREFIX_MAP_2 of the Python file, and BitmaskEngineProofs.v proves the fast versions equal to
@@ -138,25 +138,16 @@ Definition route (cs : list chunk) (q : list nat) : result (list chunk) :=
   | None => Err KeyErr
   end.
 
-(* keys = perms & suffix_mask all equal *)
-Definition all_same_key (nbrs : list (list nat)) : bool :=
-  match nbrs with
-  | [] => true
-  | q :: t => forallb (fun q' => nat_list_eqb (skipn RR q') (skipn RR q)) t
-  end.
-
-(* CayleyGraphChunkedBfs.paint_gray.
+(* CayleyGraphChunkedBfs.paint_gray (after fix 40d8e7d of the np.roll grouping).
      if len(perms) == 1: the single state goes to its chunk.
      else: perms = np.unique(perms); keys = perms & suffix_mask;
-           group_starts = np.where(np.roll(keys, 1) != keys)[0]; each run [i1, i2) of equal keys
-           is painted into chunk_map[keys[i1]]; finally group_starts[-1] starts the last run.
-   What is kept EXACTLY: the failure.  np.unique sorts; the key is the high part of the packed
-   state, so keys is non-decreasing; np.roll compares keys[i] with keys[i-1] and keys[0] with
-   keys[-1].  If at least two different keys occur, keys[0] <> keys[-1], index 0 is a group start
-   and the runs are exactly the maximal blocks of equal keys.  If ALL keys are equal (which
-   includes the case where np.unique leaves one state, and the empty array) group_starts is
-   empty, the loop body never runs and group_starts[-1] raises IndexError before anything is
-   painted.  So: IndexError iff len(perms) <> 1 and all states of the call lie in one chunk.
+           group_starts = [0] ++ (positions where keys[i] <> keys[i-1]); each run [i1, i2) of equal
+           keys is painted into chunk_map[keys[i1]]; finally group_starts[-1] starts the last run.
+   np.unique sorts; the key is the high part of the packed state, so keys is non-decreasing and the
+   runs are exactly the maximal blocks of equal keys - also when all keys are equal (one run).
+   What is kept EXACTLY: the only failure left, the empty array (keys[group_starts[-1]] = keys[0]
+   on an empty array is an IndexError); the engine never makes that call (proved:
+   BitmaskEngineProofs.no_bad_call).
    What is abstracted: the sort, the de-duplication and the run-length grouping themselves.
    Painting is "set these bits", which is idempotent and order-independent, and each state is
    painted into the chunk of ITS OWN key either way; so every state is routed separately, in
@@ -164,9 +155,9 @@ Definition all_same_key (nbrs : list (list nat)) : bool :=
    arrangement of n - 8 symbols; it is kept as [Err KeyErr].) *)
 Definition paint_gray (cs : list chunk) (nbrs : list (list nat)) : result (list chunk) :=
   match nbrs with
+  | [] => Err IndexErr
   | [q] => route cs q
-  | _ => if all_same_key nbrs then Err IndexErr
-         else fold_left (fun acc q => do cs' <- acc; route cs' q) nbrs (Ok cs)
+  | _ => fold_left (fun acc q => do cs' <- acc; route cs' q) nbrs (Ok cs)
   end.
 
 (* flush_gray_to_black / count_last_layer of the driver *)
